@@ -300,7 +300,8 @@ func c11Concurrent(c *core.Ctx, k storeKind, ns string) bool {
 	r := newRand(core.SubSeed(c.Batch.Seed, c.Batch.Name+ns))
 	sched.SetPerturb(r.Int63(), 1+r.Intn(2))
 	defer sched.SetPerturb(0, 0)
-	ids := []string{ns + "-a", ns + "-b", ns + "-c"}
+	// (the last id extends the first: keys that are prefixes of each other are different keys)
+	ids := []string{ns + "-a", ns + "-b", ns + "-c", ns + "-a1"}
 	var cbmu sync.Mutex
 	var cbs []cbRec
 	if !k.Bare {
@@ -720,14 +721,15 @@ func c11Sequential(c *core.Ctx, k storeKind, ns string) bool {
 		ms, ok := st.(*mockstore.Store)
 		return ok && ms.NewID != nil
 	}
-	ids := []string{ns + "-x", ns + "-y", ns + "-z", ""}
+	// ids that are prefixes of each other (x, x1, x1.2) are different keys of the map
+	ids := []string{ns + "-x", ns + "-y", ns + "-x1", "", ns + "-x1.2"}
 	n := 0
 	uid := func() string { n++; return fmt.Sprintf("%s.s.%d", ns, n) }
 	myG := mon.GoID()
 	for t := 0; t < 300; t++ {
 		id := ids[r.Intn(len(ids))]
 		if id == "" && r.Intn(3) > 0 {
-			id = ids[r.Intn(3)]
+			id = ids[[]int{0, 1, 2, 4}[r.Intn(4)]]
 		}
 		if st2 != nil && t%12 == 5 && id != "" && model[id] != "" {
 			// an Update whose commit fails: it returns an error, runs no change callback and
